@@ -686,6 +686,7 @@ type State struct {
 	c     *Ctx
 	heap  map[string]string
 	marks map[string]string // view synchronisation marks (not merged)
+	views []view            // array views alive on this path (see exec.go)
 }
 
 const wmKey = "$wm"
@@ -703,6 +704,7 @@ func (s *State) clone() *State {
 	for k, v := range s.marks {
 		n.marks[k] = v
 	}
+	n.views = append([]view{}, s.views...)
 	return n
 }
 
@@ -784,6 +786,15 @@ func (c *Ctx) mergeStates(gs []guardedState) *State {
 	}
 	sort.Strings(ks)
 	out := c.newState()
+	seenView := map[string]bool{}
+	for _, g := range gs {
+		for _, v := range g.st.views {
+			if !seenView[v.ref] {
+				seenView[v.ref] = true
+				out.views = append(out.views, v)
+			}
+		}
+	}
 	for _, k := range ks {
 		first := gs[0].st.get(k)
 		same := true
